@@ -5,26 +5,31 @@
 #define VF_MODEL_CONTRACTS_H
 #include "vf_contracts.h"
 
-#define VF_STR_OK(s) ((s).size <= VF_MAXSTR && __CPROVER_is_fresh((s).data, (s).size + 1) && (s).data[(s).size] == 0)
+/* Validity predicates for *requires* clauses.  They are stated with __CPROVER_r_ok: harnesses allocate the
+ * pre-state explicitly (vf_harness.h), so under --enforce-contract these hold by construction, and under
+ * --replace-call-with-contract they are checked at the call site (C13 obligations of the caller).
+ * (Probe: the same pre-state described with nested conditional __CPROVER_is_fresh costs 10x the solver time.) */
+#define VF_STR_OK(s) ((s).size <= VF_MAXSTR && __CPROVER_r_ok((s).data, (s).size + 1) && (s).data[(s).size] == 0)
 
 /* string(const string&) : fresh buffer, same length, same bytes, terminator */
 void contract_vf_string_ctor_copy(vf_string *s, const vf_string *o)
-__CPROVER_requires(VF_STR_OK(*o))
+__CPROVER_requires(__CPROVER_rw_ok(s, sizeof(*s)) && __CPROVER_r_ok(o, sizeof(*o)) && VF_STR_OK(*o))
 __CPROVER_assigns(s->data, s->size)
 __CPROVER_ensures(s->size == o->size && __CPROVER_is_fresh(s->data, s->size + 1))
 __CPROVER_ensures(vf_gk <= s->size ==> s->data[vf_gk] == o->data[vf_gk]);
 
 /* string() */
 void contract_vf_string_ctor(vf_string *s)
+__CPROVER_requires(__CPROVER_rw_ok(s, sizeof(*s)))
 __CPROVER_assigns(s->data, s->size)
 __CPROVER_ensures(s->size == 0 && __CPROVER_is_fresh(s->data, 1) && s->data[0] == 0);
 
 
 /* ---------------------------------------------------------------- validity predicates (used in requires) */
 #define VF_VEC_BYTES(v, T) (((v).size ? (v).size : 1) * sizeof(T))
-#define VF_VEC_OK(v, T) ((v).size <= VF_MAXN && __CPROVER_is_fresh((v).data, VF_VEC_BYTES(v, T)))
+#define VF_VEC_OK(v, T) ((v).size <= VF_MAXN && __CPROVER_r_ok((v).data, VF_VEC_BYTES(v, T)))
 /* a Point as every constructor leaves it: four floats, a terminated name */
-#define VF_POINT_OK(p) ((p)._data.size == 4 && __CPROVER_is_fresh((p)._data.data, 4 * sizeof(float)) && VF_STR_OK((p)._name))
+#define VF_POINT_OK(p) ((p)._data.size == 4 && __CPROVER_r_ok((p)._data.data, 4 * sizeof(float)) && VF_STR_OK((p)._name))
 #define VF_CHANNEL_OK(c) (VF_STR_OK((c)._name))
 /* Points / SubFrame / Analogs: the vector and the element at a ghost index */
 #define VF_POINTS_OK(P, j) (VF_VEC_OK((P)._points, struct Point) && ((j) < (P)._points.size ==> VF_POINT_OK((P)._points.data[j])))
@@ -43,7 +48,7 @@ __CPROVER_ensures(s->size == 0 && __CPROVER_is_fresh(s->data, 1) && s->data[0] =
  * element-wise Point(const Point&) - stated with the *required* meaning of that constructor (C01: every
  * component kept); Point_copy is the unit that holds the real constructor to it.                          */
 void contract_vf_vec_Point_ctor_copy(vf_vec_Point *v, const vf_vec_Point *o)
-__CPROVER_requires(VF_VEC_OK(*o, struct Point) && (vf_gj < o->size ==> VF_POINT_OK(o->data[vf_gj])))
+__CPROVER_requires(__CPROVER_rw_ok(v, sizeof(*v)) && __CPROVER_r_ok(o, sizeof(*o)) && VF_VEC_OK(*o, struct Point) && (vf_gj < o->size ==> VF_POINT_OK(o->data[vf_gj])))
 __CPROVER_assigns(v->data, v->size)
 __CPROVER_ensures(v->size == o->size && __CPROVER_is_fresh(v->data, VF_VEC_BYTES(*o, struct Point)))
 __CPROVER_ensures(vf_gj < o->size ==> (__CPROVER_is_fresh(v->data[vf_gj]._data.data, 4 * sizeof(float)) &&
@@ -51,7 +56,7 @@ __CPROVER_ensures(vf_gj < o->size ==> (__CPROVER_is_fresh(v->data[vf_gj]._data.d
                                        VF_POINT_EQ_AT(v->data[vf_gj], o->data[vf_gj], vf_gc)));
 
 void contract_vf_vec_Channel_ctor_copy(vf_vec_Channel *v, const vf_vec_Channel *o)
-__CPROVER_requires(VF_VEC_OK(*o, struct Channel) && (vf_gj < o->size ==> VF_CHANNEL_OK(o->data[vf_gj])))
+__CPROVER_requires(__CPROVER_rw_ok(v, sizeof(*v)) && __CPROVER_r_ok(o, sizeof(*o)) && VF_VEC_OK(*o, struct Channel) && (vf_gj < o->size ==> VF_CHANNEL_OK(o->data[vf_gj])))
 __CPROVER_assigns(v->data, v->size)
 __CPROVER_ensures(v->size == o->size && __CPROVER_is_fresh(v->data, VF_VEC_BYTES(*o, struct Channel)))
 __CPROVER_ensures(vf_gj < o->size ==> (__CPROVER_is_fresh(v->data[vf_gj]._name.data, o->data[vf_gj]._name.size + 1) &&
@@ -59,7 +64,7 @@ __CPROVER_ensures(vf_gj < o->size ==> (__CPROVER_is_fresh(v->data[vf_gj]._name.d
 
 /* vector<SubFrame>(const vector<SubFrame>&): element-wise implicit SubFrame copy = vector<Channel> copy */
 void contract_vf_vec_SubFrame_ctor_copy(vf_vec_SubFrame *v, const vf_vec_SubFrame *o)
-__CPROVER_requires(VF_VEC_OK(*o, struct SubFrame) && (vf_gk < o->size ==> VF_SUBFRAME_OK(o->data[vf_gk], vf_gj)))
+__CPROVER_requires(__CPROVER_rw_ok(v, sizeof(*v)) && __CPROVER_r_ok(o, sizeof(*o)) && VF_VEC_OK(*o, struct SubFrame) && (vf_gk < o->size ==> VF_SUBFRAME_OK(o->data[vf_gk], vf_gj)))
 __CPROVER_assigns(v->data, v->size)
 __CPROVER_ensures(v->size == o->size && __CPROVER_is_fresh(v->data, VF_VEC_BYTES(*o, struct SubFrame)))
 __CPROVER_ensures(vf_gk < o->size ==> (v->data[vf_gk]._channels.size == o->data[vf_gk]._channels.size &&
@@ -67,5 +72,36 @@ __CPROVER_ensures(vf_gk < o->size ==> (v->data[vf_gk]._channels.size == o->data[
     (vf_gj < o->data[vf_gk]._channels.size ==>
        (__CPROVER_is_fresh(v->data[vf_gk]._channels.data[vf_gj]._name.data, o->data[vf_gk]._channels.data[vf_gj]._name.size + 1) &&
         VF_CHANNEL_EQ_AT(v->data[vf_gk]._channels.data[vf_gj], o->data[vf_gk]._channels.data[vf_gj], vf_gc)))));
+
+
+/* ---------------------------------------------------------------- vector<Frame>.  Frame has implicit copy and
+ * move constructors over two shared_ptr members: copying/moving a Frame copies the two handles. */
+#define VF_FRAME_SAME(a, b) ((a)._points == (b)._points && (a)._analogs == (b)._analogs)
+
+void contract_vf_vec_Frame_push_back(vf_vec_Frame *v, const struct Frame *x)
+__CPROVER_requires(v->size < VF_MAXN && __CPROVER_rw_ok(v, sizeof(*v)) && __CPROVER_r_ok(v->data, VF_VEC_BYTES(*v, struct Frame)) && __CPROVER_r_ok(x, sizeof(*x)))
+__CPROVER_assigns(v->data, v->size)
+__CPROVER_frees(v->data)
+__CPROVER_ensures(v->size == __CPROVER_old(v->size) + 1 && __CPROVER_is_fresh(v->data, v->size * sizeof(struct Frame)))
+__CPROVER_ensures(vf_gk < __CPROVER_old(v->size) ==>
+                  (v->data[vf_gk]._points == __CPROVER_old(v->data[vf_gk < v->size ? vf_gk : 0]._points) &&
+                   v->data[vf_gk]._analogs == __CPROVER_old(v->data[vf_gk < v->size ? vf_gk : 0]._analogs)))
+__CPROVER_ensures(VF_FRAME_SAME(v->data[v->size - 1], *x));
+
+/* resize(n): shrink keeps the prefix; growth relocates the old elements (handles kept) and default-constructs
+ * the new ones: Frame() = fresh empty Points and Analogs */
+void contract_vf_vec_Frame_resize(vf_vec_Frame *v, size_t n)
+__CPROVER_requires(n <= VF_MAXN && v->size <= VF_MAXN && __CPROVER_rw_ok(v, sizeof(*v)) && __CPROVER_r_ok(v->data, VF_VEC_BYTES(*v, struct Frame)))
+__CPROVER_assigns(v->data, v->size, VF_GHOST_ALLOC)
+__CPROVER_frees(v->data)
+__CPROVER_ensures(v->size == n)
+__CPROVER_ensures(n > __CPROVER_old(v->size) ==> __CPROVER_is_fresh(v->data, n * sizeof(struct Frame)))
+__CPROVER_ensures(n <= __CPROVER_old(v->size) ==> v->data == __CPROVER_old(v->data))
+__CPROVER_ensures((vf_gk < __CPROVER_old(v->size) && vf_gk < n) ==>
+                  (v->data[vf_gk]._points == __CPROVER_old(v->data[vf_gk < v->size ? vf_gk : 0]._points) &&
+                   v->data[vf_gk]._analogs == __CPROVER_old(v->data[vf_gk < v->size ? vf_gk : 0]._analogs)))
+__CPROVER_ensures((vf_gk >= __CPROVER_old(v->size) && vf_gk < n) ==>
+                  (__CPROVER_is_fresh(v->data[vf_gk]._points, sizeof(struct Points)) && v->data[vf_gk]._points->_points.size == 0 &&
+                   __CPROVER_is_fresh(v->data[vf_gk]._analogs, sizeof(struct Analogs)) && v->data[vf_gk]._analogs->_subframe.size == 0));
 
 #endif
